@@ -178,7 +178,7 @@ def write_pickle_cia(path, tab):
     return path
 
 
-def write_hitran_cia(path, pair, blocks, order='block'):
+def write_hitran_cia(path, pair, blocks, order='block', third_column=False):
     """HITRAN CIA format (Richard et al. 2012, Karman et al. 2019): every (block, temperature)
     set has a 100-character header - chemical symbol (20), first and last wavenumber (2x10),
     number of points (7), temperature (7), maximum value (10), resolution (6), comment (27),
@@ -204,5 +204,8 @@ def write_hitran_cia(path, pair, blocks, order='block'):
             f.write('%20s%10.4f%10.4f%7d%7.1f%10.3E%6s%27s%3d\n' % (
                 pair, wn[0], wn[-1], len(wn), T, max(sig.max(), 0.0), ' -.999', 'verif', 1))
             for w_, s_ in zip(wn, sig):
-                f.write('%10.4f %.16E\n' % (w_, s_))
+                if third_column:        # the optional uncertainty column of the HITRAN format
+                    f.write('%10.4f %.16E %.3E\n' % (w_, s_, abs(s_) * 0.1))
+                else:
+                    f.write('%10.4f %.16E\n' % (w_, s_))
     return path
